@@ -73,6 +73,10 @@ func (mm *MMapRWManager) WriteAt(b []byte, off int64) (n int, err error) {
 func (mm *MMapRWManager) ReadAt(b []byte, off int64) (n int, err error) {
 	if mm.m == nil {
 		return 0, ErrUnmappedMemory
+	} else if len(b) == 0 && off == int64(len(mm.m)) {
+		// an empty read at the very end of the region needs no byte (the empty value of a
+		// record that fills its segment), as with os.File.ReadAt
+		return 0, nil
 	} else if off >= int64(len(mm.m)) || off < 0 {
 		return 0, ErrIndexOutOfBound
 	}
